@@ -11,7 +11,7 @@ ASSUME SinkIndependence
 ASSUME NoStdNeutralForStdFree
 ASSUME NoStdRejectsStdUsers
 
-Emit == Done => PrintT(<<"REPLAY", ToJson([base |-> IndexOfCfg(cfg), cfg |-> cfg, success |-> Success(cfg),
+Emit == Settled => PrintT(<<"REPLAY", ToJson([base |-> IndexOfCfg(cfg), cfg |-> cfg, success |-> Success(cfg),
                                             eff |-> Eff(cfg), exit_fixed |-> ExitFixed(cfg),
                                             expect |-> Expectation])>>)
 =============================================================================
